@@ -13,7 +13,9 @@
  *   rangeset i=                          mpt_range_set with the iterator as value
  *   prepare len= [i= ld=]                mpt_values_prepare on a column kept by the driver; with i: the new part is
  *          filled from the instance by the documented loop (at most len elements)
- *   vfile rows= cols= order=row|col data=0|1 desc=<hex content>     mpt_values_file
+ *   pshare                               a second array takes over the column (mpt_array_clone); prepare reports both
+ *   vfile rows=r1,r2,.. cols= order=row|col data=0|1 desc=<hex content>     mpt_values_file, one call per entry of rows
+ *          on the same stream
  *   copy fn=64|32|df|fd pts= lds= ldd= vals=p,q,..                  mpt_copy64 / 32 / _df / _fd into a marked target
  *   rdnew max=                           mpt_rawdata_create
  *   rdmod dim= cycle= off= i= max= type=d|f|i|u|x scalar=0|1   elements walked from instance i handed to modify()
@@ -44,7 +46,7 @@ static char *files[MAXFILES];
 static int nfiles;
 static long filecount;
 
-static _MPT_ARRAY_TYPE(double) parr = MPT_ARRAY_INIT;
+static _MPT_ARRAY_TYPE(double) parr = MPT_ARRAY_INIT, psib = MPT_ARRAY_INIT;   /* prepared column, array sharing its storage */
 static MPT_INTERFACE(metatype) *rdm;
 static MPT_INTERFACE(rawdata) *rd;
 
@@ -58,6 +60,7 @@ static void drv_reset(void)
 	}
 	nfiles = 0;
 	mpt_array_clone(&parr, 0);
+	mpt_array_clone(&psib, 0);
 	if (rdm) rdm->_vptr->unref(rdm);
 	rdm = 0;
 	rd = 0;
@@ -305,40 +308,66 @@ static void drv_step(struct cmd *c)
 		drv_begin(c);
 		j_str("ret", t ? "ok" : "refused");
 		j_doubles("arr", b ? (const double *) (b + 1) : 0, b ? b->_used / sizeof(double) : 0);
+		j_doubles("sib", psib._buf ? (const double *) (psib._buf + 1) : 0, psib._buf ? psib._buf->_used / sizeof(double) : 0);
 		j_int("at", (t && b) ? (long long) (t - (const double *) (b + 1)) : -1);
 		if (drv_has(c, "i")) { j_int("n", filled); j_str("how", how); }
 		drv_dbg();
 		j_int("used", b ? (long long) b->_used : -1);
+		j_int("same", (b && b == psib._buf) ? 1 : 0);
+		drv_end();
+		return;
+	}
+	if (!strcmp(a, "pshare")) {
+		/* a second array takes over the prepared column (same storage until one of them is changed) */
+		const MPT_STRUCT(buffer) *b = parr._buf;
+		if (!b) { answer(c, "skipped"); return; }      /* no column yet: no call made */
+		mpt_array_clone(&psib, &parr);
+		drv_begin(c);
+		j_str("ret", "ok");
+		j_doubles("arr", (const double *) (b + 1), b->_used / sizeof(double));
+		j_doubles("sib", psib._buf ? (const double *) (psib._buf + 1) : 0, psib._buf ? psib._buf->_used / sizeof(double) : 0);
+		drv_dbg();
+		j_int("same", (parr._buf == psib._buf) ? 1 : 0);
 		drv_end();
 		return;
 	}
 	if (!strcmp(a, "vfile")) {
-		size_t dl = 0;
+		/* rows=r1,r2,..: consecutive calls on the same stream, each call filling its own block of the target */
+		size_t dl = 0, nc = 0, q;
 		uint8_t *desc = drv_bytes(c, "desc", &dl);
-		long rows = (long) drv_int(c, "rows", 0), cols = (long) drv_int(c, "cols", 0), k, total = rows * cols;
+		long long *rows = drv_ints(c, "rows", &nc);
+		long cols = (long) drv_int(c, "cols", 0), k, total = 0, off = 0;
 		const char *order = drv_raw(c, "order");
 		int with = (int) drv_int(c, "data", 1), r = -999999;
-		double *t = (double *) malloc((size_t) (total > 0 ? total : 1) * sizeof(*t));
+		double *t;
 		char *path = scratch_file(desc, dl);
 		FILE *f = path ? fopen(path, "r") : 0;
+		long long codes[16];
+		if (nc > 16) nc = 16;
+		for (q = 0; q < nc; q++) total += (long) rows[q] * cols;
+		t = (double *) malloc((size_t) (total > 0 ? total : 1) * sizeof(*t));
 		for (k = 0; k < total; k++) t[k] = -12345.0;
-		if (f) {
-			r = mpt_values_file(f, (order && !strcmp(order, "col")) ? -rows : rows, cols, with ? t : 0);
-			fclose(f);
+		for (q = 0; f && q < nc; q++) {
+			r = mpt_values_file(f, (order && !strcmp(order, "col")) ? -(long) rows[q] : (long) rows[q], cols, with ? t + off : 0);
+			codes[q] = r;
+			off += (long) rows[q] * cols;
 		}
+		if (f) fclose(f);
 		if (path && nfiles && files[nfiles - 1] == path) {   /* not needed any longer */
 			unlink(path);
 			free(path);
 			nfiles--;
 		}
 		drv_begin(c);
-		j_str("ret", !f ? "nofile" : (r == 0 ? "ok" : (r < 0 ? "short" : "other")));
+		j_arr_open("ret");
+		for (q = 0; q < nc; q++) j_item_str(!f ? "nofile" : (codes[q] == 0 ? "ok" : (codes[q] < 0 ? "short" : "other")));
+		j_arr_close();
 		j_doubles("vals", t, total > 0 ? (size_t) total : 0);
 		drv_dbg();
-		j_int("k", r < 0 ? -(long long) r : 0);
-		j_int("code", r);
+		j_ints("codes", codes, f ? nc : 0);
 		drv_end();
 		free(t);
+		free(rows);
 		free(desc);
 		return;
 	}
